@@ -15,6 +15,7 @@ Failure clauses (first component = property the clause belongs to):
   C10.contract
   C12.tree C12.noop C12.tmpdir C12.after_clean
   C14.not_surfaced C14.swallowed
+  C09.deadlock
 """
 import collections
 import json
@@ -103,6 +104,8 @@ class Harness:
             elif op == 'clean':
                 self._twin_state = None
                 fails = self.clean()
+            elif op == 'sweep':
+                fails = self.sweep(step[1])
             elif op == 'save':
                 self._save_state()
                 fails = []
@@ -231,6 +234,26 @@ class Harness:
     def _holds_cache(self, p):
         return self.cache.startswith(p + '/')
 
+    def sweep(self, versions):
+        """Exhaustive single-preemption sweep of a parallel build from the current state, each run followed
+        by an unchanged rebuild and clean (schedule-robust form of a regression witness)."""
+        self._save_state()
+        fails = self.build(versions, None, None, {'sched': {'preempt': []}})
+        if fails:
+            return fails
+        n = ((self.rctx.extra.get('sched_runs') or [{'decisions': 0}])[0])['decisions']
+        for i in range(1, n + 1):
+            self._restore_state()
+            for s in (['build', versions, None, None, {'sched': {'preempt': [[i, 0]]}}],
+                      ['build', versions, None, None, {'sched': {'preempt': []}}], ['clean']):
+                fails = self.build(s[1], None, None, s[4]) if s[0] == 'build' else self.clean()
+                if fails:
+                    for f in fails:
+                        f['sig'] += ' [preemption %d of %d]' % (i, n)
+                    return fails
+            self.stats['sweep_runs'] += 1
+        return []
+
     # ---- save / restore (crash-point and fault enumeration) ---------------------------------------
     def _save_state(self):
         self._saved = {'fs': self.sb.save(), 'prev': self.prev, 'step': self.step, 'clock': self.sb.clock,
@@ -273,7 +296,9 @@ class Harness:
         has_cache = self.cache in pre and pre[self.cache][0] == 'f'
         fails = []
 
-        fault = mode if isinstance(mode, dict) else None
+        fault = mode if isinstance(mode, dict) and 'k' in mode else None
+        sched_spec = mode.get('sched') if isinstance(mode, dict) else None
+        uses_par = any(s[0] == 'par' for blk in [prog['root']] + [f['body'] for f in prog['funcs'].values()] for s in dsl.iter_stmts(blk))
         mctx = dsl.Ctx('model', prog, versions, ctx_step, self.universe, self.masked)
         mb = ModelBuild(pre_model, self.prev, self.cache, versions, self.R)
 
@@ -304,6 +329,10 @@ class Harness:
             inj.on_fire = on_fire
             rctx.extra['injector'] = inj
             interpose.HOOK = inj
+        if uses_par:
+            from . import sched
+            sched.enable()
+            rctx.extra['sched_spec'] = sched_spec
         try:
             rret = ('ok', FileBuilder.build_versioned(self.cache, BUILD_NAME, versions, dsl.root_func(rctx)))
         except Exception as e:
@@ -313,6 +342,14 @@ class Harness:
         finally:
             if fault is not None:
                 interpose.HOOK = None
+            if uses_par:
+                sched.disable()
+        if rctx.extra.get('deadlock'):
+            fails.append(self._fail('C09.deadlock', 'deadlock: every live thread waits for a lock', {'step': self.step, 'schedule': sched_spec}))
+        for sr in rctx.extra.get('sched_runs', []):
+            self.stats['sched_par_runs'] += 1
+            self.stats['sched_decision_points'] += sr['decisions']
+            self.stats['sched_switches'] += sr['switches']
         fault_fired = inj is not None and inj.fired is not None
         self._fault_fired_now = fault_fired
         if fault is not None:
@@ -400,6 +437,8 @@ class Harness:
         if real_exc is not None and rret[0] == 'exc':
             expected_obj = rctx.crash_obj if crash_at is not None and rctx.crash_obj is not None else (
                 rctx.raised_objs[-1] if isinstance(real_exc, UserError) and rctx.raised_objs else None)
+            if isinstance(real_exc, UserError) and any(real_exc is o for o in rctx.raised_objs):
+                expected_obj = real_exc      # several tasks may raise: any of the raised objects is "the same object"
             if expected_obj is not None and real_exc is not expected_obj and isinstance(real_exc, (UserError, Crash)):
                 fails.append(self._fail('C02.exc_identity', 'propagated exception is not the raised object', info))
 
